@@ -171,4 +171,10 @@ def srcModule (m : Module) : Bool := m.items.all srcItem
 def Source.fromReader (src : Source) : Bool := src.modules.all srcModule
 
 
+/-- `elaborate`'s message class for an identifier that is declared nowhere in scope -/
+def UndeclMsg (msg : String) : Bool := "[undeclared]".toList.isPrefixOf msg.toList
+
+def NoUndecl {α : Type} (r : R α) : Prop := ∀ msg, r = .error msg → UndeclMsg msg = false
+
+
 end BMV.Vlog
